@@ -2,6 +2,8 @@ package mon
 
 import (
 	"bufio"
+	"runtime"
+	"time"
 	"fmt"
 	"math/rand/v2"
 	"os"
@@ -381,7 +383,7 @@ func runHistory(w *W, st *c15stats, src objSource, hseed uint64, n int) {
 		op := rng.IntN(nQueryOps)
 		p := 0
 		if op == 8 || op == 9 {
-			p = rng.IntN(9)
+			p = rng.IntN(len(reportLangs))
 		}
 		// occasionally: mutate an exported field, query, restore, query
 		if src.Mode == 0 && rng.IntN(25) == 0 {
@@ -416,7 +418,7 @@ func runHistory(w *W, st *c15stats, src objSource, hseed uint64, n int) {
 		if len(trace) < 40 {
 			trace = append(trace, opNames[op])
 		}
-		key := op*16 + p
+		key := op*64 + p
 		if prev, seen := first[key]; seen {
 			if res != prev {
 				w.Violate(Violation{Monitor: "C15", Check: "repeating a query returns the identical result", Case: c, Observed: clip(res, 500), Expected: clip(prev, 500), Note: fmt.Sprintf("op %s #%d after %v", opNames[op], i, trace)})
@@ -462,7 +464,7 @@ func runHistory(w *W, st *c15stats, src objSource, hseed uint64, n int) {
 func pairSource(seed int64, i int) (objSource, int, int) {
 	rng := rand.New(rand.NewPCG(uint64(seed)*7919+uint64(i), 0xC15))
 	src := randomSource(rng)
-	return src, rng.IntN(nQueryOps), rng.IntN(9)
+	return src, rng.IntN(nQueryOps), rng.IntN(len(reportLangs))
 }
 
 func pairDigest(seed int64, i int) uint64 {
@@ -509,7 +511,7 @@ func c15child(args []string, _ int64, _ string) int {
 		l := window[k]
 		l.step++
 		// unrelated queries on a live object before its pair is finally evaluated
-		doOp(l.o, rng.IntN(nQueryOps), rng.IntN(9))
+		doOp(l.o, rng.IntN(nQueryOps), rng.IntN(len(reportLangs)))
 		if l.step >= 3 {
 			fmt.Fprintf(out, "%d %d\n", l.i, pairDigest(seed, l.i))
 			window = append(window[:k], window[k+1:]...)
@@ -568,6 +570,7 @@ func runC15(r *Run) int {
 	}
 	var liveMu sync.Mutex
 	var live []liveObj
+	firstObs := make([]uint64, min(2000, nObj)) // what the first sources of the run reported when they were first made
 	histories := func(lo, hi int) {
 		r.Parallel(hi-lo, 4, func(w *W, j int) {
 			i := lo + j
@@ -575,6 +578,9 @@ func runC15(r *Run) int {
 			src := randomSource(rng)
 			n := 10 + rng.IntN(r.Pick(90, 190))
 			hseed := uint64(r.Seed)<<32 ^ uint64(i)*0x9E3779B97F4A7C15
+			if i < len(firstObs) {
+				firstObs[i] = Hash(obsVector(src.make()))
+			}
 			runHistory(w, st, src, hseed, n)
 			if i%3 == 0 { // one more object of this origin stays alive, untouched, until the end
 				o := src.make()
@@ -591,6 +597,62 @@ func runC15(r *Run) int {
 	}
 	histories(0, nObj/2)
 	GCStress(func() { histories(nObj/2, nObj) }) // the second half under forced garbage collections
+	// views that outlive their owner: only BaseMetrics() / TemporalMetrics() of a decoded object are kept, the owner
+	// is dropped, garbage collections run, other vectors are decoded, and the views are observed again
+	type keptView struct {
+		v    lib.Obj
+		want string
+		src  objSource
+	}
+	var kept []keptView
+	{
+		rng := r.Rng(777)
+		for len(kept) < r.Pick(600, 6000) {
+			src := randomSource(rng)
+			if src.Mode != 0 || src.Kind.Level() == 0 {
+				continue
+			}
+			o := src.make()
+			if o.IsNil() {
+				continue
+			}
+			if bv, ok, _ := o.BaseView(); ok && !bv.IsNil() {
+				kept = append(kept, keptView{bv, obsString(bv), src})
+			}
+			if tv, ok, _ := o.TemporalView(); ok && !tv.IsNil() {
+				kept = append(kept, keptView{tv, obsString(tv), src})
+			}
+		}
+		for round := 0; round < 3; round++ {
+			runtime.GC()
+			time.Sleep(2 * time.Millisecond)
+			for j := 0; j < 2000; j++ { // unrelated decoding in between
+				randomSource(rng).make()
+			}
+		}
+		w := r.NewW()
+		for _, kv := range kept {
+			w.Eval(1)
+			if got := obsString(kv.v); got != kv.want {
+				c := histCase(kv.src, 0, 0)
+				c.Args["kept"] = "only the " + kv.v.Kind.String() + " view was kept; the owner was dropped and garbage collections ran"
+				w.Violate(Violation{Monitor: "C15", Check: "a BaseMetrics()/TemporalMetrics() view keeps reporting the same results after its owner was dropped and collected", Case: c, Observed: got, Expected: kv.want})
+			}
+		}
+		w.Merge()
+		r.Extra("views_kept_after_their_owner_was_dropped", len(kept))
+	}
+	// the first sources of the run are made again at the very end (after tens of thousands of other distinct vectors)
+	r.Parallel(len(firstObs), 16, func(w *W, i int) {
+		rng := r.Rng(uint64(i) + 1)
+		src := randomSource(rng)
+		a := obsVector(src.make())
+		w.Eval(1)
+		if Hash(a) != firstObs[i] {
+			w.Violate(Violation{Monitor: "C15", Check: "a vector decoded again at the end of the run reports what it reported at its start", Case: histCase(src, 0, 0), Observed: clip(a, 400), Expected: fmt.Sprint("digest ", firstObs[i])})
+		}
+		w.DistinctS("revisited", src.Input)
+	})
 	// the objects that stayed alive (never queried so far) must still report what a twin reported when they were made
 	r.Parallel(len(live), 64, func(w *W, i int) {
 		w.Eval(1)
